@@ -35,7 +35,7 @@ ASSUMPTIONS = [
     "'empty' feature excluded; CPU only",
 ]
 PROBES = ["feature_schedule", "hedger_schedule", "recurrent_log", "recurrent_after_fault", "H2", "listed_hedge",
-          "other_use_between", "prev_hedge_not_last", "loss_compared", "ww_model"]
+          "other_use_between", "prev_hedge_not_last", "loss_compared", "ww_model", "bound_feature_reused"]
 
 
 class SimFault(Exception):
@@ -89,6 +89,10 @@ def generate(rng):
                     f = {"f": "module_output", "module": {"kind": "linear", "in": len(inner), "out": 1, "init_seed": rng.seed31()},
                          "inputs": inner}
             ops.append({"op": "feature_sched", "feature": f, "derivative": "d0"})
+            if rng.chance(0.5):
+                # the same bound feature object again, after a re-simulation of the same shape
+                ops.append({"op": "simulate", "target": "d0", "n_paths": n0, "torch_seed": rng.seed31()})
+                ops.append({"op": "feature_sched", "feature": f, "derivative": "d0"})
         elif k == "hedger_sched":
             ops.append({"op": "hedger_sched", "hedger": "h0", "derivative": "d0", "hedge": hedge})
         else:
@@ -160,6 +164,7 @@ def _execute(program, stats, hist):
     sig = []
     hazard = False
     after_fault = False
+    bound = {}  # features bound once with .of(derivative) and re-used across operations (and re-simulations)
     for op in program["ops"]:
         seq = hist.seq
         if "fault" in op:
@@ -245,11 +250,20 @@ def _execute(program, stats, hist):
         dtv = float(next(iter(d.underliers())).dt)
         if name == "feature_sched":
             from pfhedge.features import get_feature
-            f = get_feature(build_feature(op["feature"], world))
-            if isinstance(f, torch.nn.Module):
-                f.to(dtype)
-            f = f.of(d)
+            import json as _json
             fname = feature_name(op["feature"])
+            key = _json.dumps(op["feature"], sort_keys=True)
+            if key in bound and op.get("reuse", True):
+                f = bound[key]
+                stats.probe("bound_feature_reused")
+                if isinstance(f, torch.nn.Module):
+                    f.to(dtype)
+            else:
+                f = get_feature(build_feature(op["feature"], world))
+                if isinstance(f, torch.nn.Module):
+                    f.to(dtype)
+                f = f.of(d)
+                bound[key] = f
             loose = isinstance(op["feature"], dict) and op["feature"]["f"] == "module_output"
             rtol, atol = _tol(dtype, loose)
             scale = (T - 1) * dtv if _depends_on_time(op["feature"]) and not loose else 0.0
